@@ -471,11 +471,45 @@ def write_evidence(prop, tier, seed, coverage, assumptions, wall_s, violations, 
             print("VIOLATION property=%s replay=%s no-failing-input-found" % (prop, path))
             XCHECK_FAIL.append(path)
             violations += 1
+    if tier == "thorough" and os.environ.get("VERIF_NO_COQCHK") != "1" and os.path.exists(os.path.join(COQ, "Properties", prop + ".vo")):
+        ck = coqchk_prop(prop)
+        coverage = dict(coverage, coqchk=ck)
+        coverage["trusted_base"] = list(coverage.get("trusted_base", [])) + [
+            "coqchk -silent -o re-checked Properties/%s.vo and its dependencies: %s" % (prop, "ok" if ck["ok"] else "FAILED")]
+        if not ck["ok"]:
+            path = write_replay(prop, "coqchk", {"property": prop, "kind": "coqchk rejects the compiled library",
+                                "no_longer_checks": "coqchk EV.Properties.%s" % prop, "detail": ck})
+            print("VIOLATION property=%s replay=%s no-failing-input-found" % (prop, path))
+            XCHECK_FAIL.append(path)
+            violations += 1
     wall_s += time.time() - t0
     ev = {"property_id": prop, "tier": tier, "seed": seed, "level": level, "coverage": coverage,
           "assumptions": assumptions, "wall_s": round(wall_s, 2), "violations": violations}
     with open(os.path.join(VERIF, "evidence", prop + ".json"), "w") as f:
         json.dump(ev, f, indent=1, sort_keys=True)
+
+def coqchk_prop(prop):
+    """Independent re-check (coqchk) of Properties/<prop>.vo and everything it depends on; cached per
+    content of the .vo files of the cone.  -> dict(ok, summary, seconds, cached)"""
+    cone = coq_cone("Properties/%s.v" % prop)
+    h = hashlib.sha256()
+    for f in cone:
+        vo = os.path.join(COQ, f + "o")
+        if os.path.exists(vo):
+            h.update(f.encode()); h.update(open(vo, "rb").read())
+    key = h.hexdigest()[:24]
+    stamp = os.path.join(BUILD, "coqchk_%s_%s.txt" % (prop, key))
+    if os.path.exists(stamp):
+        txt = open(stamp).read()
+        return {"ok": "CONTEXT SUMMARY" in txt, "summary": txt[txt.find("CONTEXT SUMMARY"):][:1500], "seconds": 0, "cached": True}
+    t0 = time.time()
+    p = sh("timeout 5400 coqchk -silent -o -Q . EV EV.Properties.%s 2>&1" % prop, cwd=COQ, check=False, timeout=5500)
+    txt = p.stdout
+    ok = p.returncode == 0 and "CONTEXT SUMMARY" in txt
+    if ok:
+        open(stamp, "w").write(txt)
+    return {"ok": ok, "summary": (txt[txt.find("CONTEXT SUMMARY"):] if ok else txt[-1500:])[:1500],
+            "seconds": round(time.time() - t0, 1), "cached": False}
 
 def extraction_crosscheck(prop, per_mode):
     """Re-evaluate a sample of the scripts this check sent to the extracted runner with vm_compute."""
